@@ -99,7 +99,7 @@ def run_scenario(res: Result, seed: int) -> None:
                 s = R.gen_service(rng, type_=T1, min_ttl=10)
                 s.name = "own%d.%s" % (i, T1)
                 # services may share a host name and still advertise different address sets (IPv4-only next to dual-stack)
-                s.server = "h-own%d.local." % (i if rng.random() < 0.6 else 0)
+                s.server = R.spell(rng, "h-own%d" % (i if rng.random() < 0.6 else 0)) + ".local."
                 svcs.append(s)
                 t = await zc.async_register_service(R.make_info(s), cooperating_responders=True)
                 await t
